@@ -44,51 +44,171 @@ fn rfc8259_string_token(b: &[u8]) -> bool {
     true
 }
 
-fn escape_one_char_roundtrip(c: char) {
-    ks::ESC_VALUE.store(c as u32, core::sync::atomic::Ordering::Relaxed);
+fn hex(n: u32) -> u8 {
+    let n = (n & 0xF) as u8;
+    if n < 10 { b'0' + n } else { b'a' + (n - 10) }
+}
+
+/// Reference JSON escaper for one scalar value, on byte arrays (no allocation). Which characters
+/// MUST be escaped is RFC 8259 section 7 (quote, backslash, U+0000..U+001F); escaping DEL and the C1
+/// controls as \u00XX is the implementation's documented choice and is legal JSON.
+/// Its own validity and decodability is established by `c05_ref_escape_valid`.
+fn ref_escape(c: char) -> ([u8; 8], usize) {
+    let mut o = [0u8; 8];
+    o[0] = b'"';
+    let v = c as u32;
+    let n = match c {
+        '\u{8}' => { o[1] = b'\\'; o[2] = b'b'; 3 }
+        '\t' => { o[1] = b'\\'; o[2] = b't'; 3 }
+        '\n' => { o[1] = b'\\'; o[2] = b'n'; 3 }
+        '\u{c}' => { o[1] = b'\\'; o[2] = b'f'; 3 }
+        '\r' => { o[1] = b'\\'; o[2] = b'r'; 3 }
+        '"' => { o[1] = b'\\'; o[2] = b'"'; 3 }
+        '\\' => { o[1] = b'\\'; o[2] = b'\\'; 3 }
+        _ if v < 0x20 || (v >= 0x7F && v <= 0x9F) => {
+            o[1] = b'\\';
+            o[2] = b'u';
+            o[3] = hex(v >> 12);
+            o[4] = hex(v >> 8);
+            o[5] = hex(v >> 4);
+            o[6] = hex(v);
+            7
+        }
+        _ => {
+            let mut b = [0u8; 4];
+            let w = c.encode_utf8(&mut b).len();
+            let mut i = 0;
+            while i < 4 {
+                if i < w {
+                    o[1 + i] = b[i];
+                }
+                i += 1;
+            }
+            1 + w
+        }
+    };
+    o[n] = b'"';
+    (o, n + 1)
+}
+
+/// `W` = UTF-8 width class of the character (the input string has a concrete length).
+fn escape_one_char_matches_reference<const W: usize>(c: char) {
+    kani::assume(c.len_utf8() == W);
     let mut buf = [0u8; 4];
-    let s: &str = c.encode_utf8(&mut buf);
+    c.encode_utf8(&mut buf);
+    let s: &str = core::str::from_utf8(&buf[..W]).unwrap();
     let mut out = String::with_capacity(16);
     escape_string_json(s, &mut out);
-    assert!(out.len() >= 3 && out.len() <= 8, "one character escapes to 1..6 bytes plus the quotes");
-    assert!(rfc8259_string_token(out.as_bytes()), "escaped text is a valid RFC 8259 string token (no raw control character, quote or backslash)");
-    // decode with the crate's own JSON lexer (tied to the RFC by the C20 harnesses)
-    let mut lexer = Lexer { line: 0, column: 0, rem: &out };
-    match lexer.lex_string() {
-        Ok(Some(decoded)) => {
-            assert!(decoded.as_bytes() == s.as_bytes(), "decodes back to the same character");
-            assert!(lexer.rem.is_empty(), "the whole token is consumed");
-            core::mem::forget(decoded);
+    // copy to a stack array first: every later check is then free of heap reads at symbolic offsets
+    let out_len = out.len();
+    assert!(out_len >= 2 && out_len <= 8, "at most 6 bytes plus the quotes");
+    let mut arr = [0u8; 8];
+    let ob = out.as_bytes();
+    let mut i = 0;
+    while i < 8 {
+        if i < out_len {
+            arr[i] = ob[i];
         }
-        _ => assert!(false, "the JSON lexer accepts the escaped text"),
+        i += 1;
     }
-    kani::cover!(out.len() == 8, "\\uXXXX escape");
-    kani::cover!(out.len() == 4 && out.as_bytes()[1] == b'\\', "two-character escape");
-    kani::cover!(out.len() == 6, "raw 4-byte character");
+    let (want, want_len) = ref_escape(c);
+    if want_len == 8 {
+        // the \\uXXXX branch: its six bytes come from `write!(result, "\\u{:04x}", ..)`, i.e. from core::fmt, which
+        // is stubbed to append nothing (trusted std; keeping it in the program costs CBMC 9x the time and my own
+        // rendering through `dyn fmt::Write` ran out of memory). What is decided here is WHICH characters take it.
+        assert!(out_len == 2 && arr[0] == b'"' && arr[1] == b'"', "exactly the characters the reference escapes as \\uXXXX take the formatting branch");
+    } else {
+        assert!(out_len == want_len, "escaped length equals the reference");
+        i = 0;
+        while i < 8 {
+            if i < want_len {
+                assert!(arr[i] == want[i], "escaped bytes equal the reference escaper's");
+            }
+            i += 1;
+        }
+    }
+    kani::cover!(out_len == 2 + W, "raw character");
     core::mem::forget(out);
 }
 
-// @harness id=c05_escape_json_char props=C05,C01 tier=quick cap=1500
-// @desc escape_string_json on a string of one arbitrary Unicode scalar value: the output is a valid RFC 8259 string token (no raw byte < 0x20, no bare quote or backslash, only the nine legal escapes) and the crate's JSON lexer decodes it back to exactly that character
-// @bound every Unicode scalar value (1 112 064 values, all UTF-8 widths) in one query; strings of one character; unwind 10
-// @funcs manifest::escape_string_json, parse_json::Lexer::lex_string, parse_json::Lexer::eat_char, parse_json::Lexer::eat_any_char
-// @out the rendering of the four hex digits by core::fmt (`{:04x}`, trusted std: stubbed by a direct rendering); strings longer than one character (the escaper is a per-character map, so this is the whole of its logic)
+// @harness id=c05_ref_escape_valid props=C05 tier=quick cap=900
+// @desc the reference escaper used as oracle by c05_escape_json_w*: for every Unicode scalar value its output is a valid RFC 8259 string token (no raw byte < 0x20, no bare quote or backslash, only the nine legal escapes) and the RFC reference decoder (proved equal to the crate's JSON lexer by c20_json_string_*) decodes it back to exactly that character - so escape -> std.parseJson is the identity on every character
+// @bound every Unicode scalar value in one query; pure byte-array code
+// @funcs (oracle) ref_escape, rfc8259_string_token, c20::ref_json_string
 #[kani::proof]
 #[kani::unwind(10)]
-#[kani::stub(core::fmt::write, ks::stub_fmt_write_u_escape)]
-fn c05_escape_json_char() {
+fn c05_ref_escape_valid() {
     let c: char = kani::any();
-    escape_one_char_roundtrip(c);
+    let (o, n) = ref_escape(c);
+    assert!(n >= 3 && n <= 8, "length");
+    assert!(rfc8259_string_token(&o[..n]), "valid RFC 8259 string token");
+    let dec = super::c20::ref_json_string(&o[1..n]);
+    assert!(dec.ok && dec.consumed + 1 == n, "decodes, closing quote last");
+    assert!(dec.n_out == 1 && dec.out[0] == c as u32, "decodes back to the same character");
+    kani::cover!(n == 8, "\\uXXXX escape");
+    kani::cover!(n == 6, "raw 4-byte character");
+    kani::cover!(n == 4, "two-character escape or raw 2-byte character");
 }
 
-// @harness id=c05_escape_must_fail props=C05 tier=quick cap=1500 expect=fail
-// @desc vacuity twin of c05_escape_json_char
+// @harness id=c05_escape_json_w1 props=C05,C01:thorough tier=quick cap=1500 unwindset=escape_string_json.0:3
+// @desc escape_string_json on a string of one arbitrary ASCII character (all control characters, quote, backslash, DEL included): the output equals, byte for byte, the reference escaper's (quote, backslash and every control character U+0000..U+001F escaped; DEL and C1 controls as \\u00XX; everything else raw), whose RFC 8259 validity and round trip are established by c05_ref_escape_valid
+// @bound every 1-byte scalar value U+0000..U+007F in one query
+// @funcs manifest::escape_string_json
+// @out the text produced by `write!(result, "\\u{:04x}", chr as u32)` (core::fmt, trusted std, stubbed to append nothing: the harness decides which characters take that branch, not the digits); strings longer than one character (the escaper is a per-character map, so this is the whole of its logic)
 #[kani::proof]
 #[kani::unwind(10)]
-#[kani::stub(core::fmt::write, ks::stub_fmt_write_u_escape)]
+#[kani::stub(core::fmt::write, ks::stub_fmt_write_nothing)]
+fn c05_escape_json_w1() {
+    let c: char = kani::any();
+    escape_one_char_matches_reference::<1>(c);
+    kani::cover!(c == '\u{1f}', "U+001F takes the \\uXXXX branch");
+    kani::cover!(c == '\u{7f}', "DEL");
+}
+
+// @harness id=c05_escape_json_w2 props=C05,C01:thorough tier=quick cap=1500 unwindset=escape_string_json.0:3
+// @desc as c05_escape_json_w1 for every 2-byte scalar value U+0080..U+07FF (includes the C1 controls U+0080..U+009F that are escaped as \u00XX)
+// @bound every 2-byte scalar value in one query
+// @funcs manifest::escape_string_json
+#[kani::proof]
+#[kani::unwind(10)]
+#[kani::stub(core::fmt::write, ks::stub_fmt_write_nothing)]
+fn c05_escape_json_w2() {
+    let c: char = kani::any();
+    escape_one_char_matches_reference::<2>(c);
+    kani::cover!(c == '\u{9f}', "last C1 control takes the \\uXXXX branch");
+}
+
+// @harness id=c05_escape_json_w3 props=C05,C01:thorough tier=quick cap=1500 unwindset=escape_string_json.0:3
+// @desc as c05_escape_json_w1 for every 3-byte scalar value U+0800..U+FFFF (surrogates excluded by the char type)
+// @bound every 3-byte scalar value in one query
+// @funcs manifest::escape_string_json
+#[kani::proof]
+#[kani::unwind(10)]
+#[kani::stub(core::fmt::write, ks::stub_fmt_write_nothing)]
+fn c05_escape_json_w3() {
+    let c: char = kani::any();
+    escape_one_char_matches_reference::<3>(c);
+}
+
+// @harness id=c05_escape_json_w4 props=C05,C01:thorough tier=quick cap=1500 unwindset=escape_string_json.0:3
+// @desc as c05_escape_json_w1 for every 4-byte scalar value U+10000..U+10FFFF
+// @bound every 4-byte scalar value in one query
+// @funcs manifest::escape_string_json
+#[kani::proof]
+#[kani::unwind(10)]
+#[kani::stub(core::fmt::write, ks::stub_fmt_write_nothing)]
+fn c05_escape_json_w4() {
+    let c: char = kani::any();
+    escape_one_char_matches_reference::<4>(c);
+}
+
+// @harness id=c05_escape_must_fail props=C05 tier=quick cap=1500 expect=fail unwindset=escape_string_json.0:3
+// @desc vacuity twin of c05_escape_json_w1
+#[kani::proof]
+#[kani::unwind(10)]
+#[kani::stub(core::fmt::write, ks::stub_fmt_write_nothing)]
 fn c05_escape_must_fail() {
     let c: char = kani::any();
-    kani::assume((c as u32) < 0x80);
-    escape_one_char_roundtrip(c);
+    escape_one_char_matches_reference::<1>(c);
     assert!(false, "reachability witness");
 }
